@@ -211,7 +211,12 @@ where
     }
 
     // fall back to a copy and delete if src and dst are on different mounts
-    fs::copy(src.as_ref(), dst.as_ref()).and_then(|_| fs::remove_file(src.as_ref()))
+    match fs::copy(src.as_ref(), dst.as_ref()).and_then(|_| fs::remove_file(src.as_ref())) {
+        // across mounts rename reports EXDEV even when src does not exist, so
+        // a missing archive only shows up here
+        Err(ref e) if e.kind() == io::ErrorKind::NotFound && !src.as_ref().exists() => Ok(()),
+        result => result,
+    }
 }
 
 #[cfg(feature = "background_rotation")]
